@@ -50,10 +50,14 @@ def gen_real(rng, i, tier):
     n = rng.choice([20000, 50000]) if tier == "quick" else rng.choice([50000, 150000])
     lines = ["case %d" % i, "real %d %d %s %d %d %d" % (ch, rate, q, rng.choice([0, 1, 3, 5, 5]), rng.randint(1, 10 ** 6), n)]
     for _ in range(12 if tier == "quick" else 40):
-        kind = rng.choice([1, 2, 3, 4, 4, 5, 6])
+        kind = rng.choice([1, 2, 3, 4, 4, 5, 6, 7, 7])
         j = rng.randint(0, 60)
         arg = rng.choice([0, 1, 2, 5, 17]) if kind == 3 else rng.randint(0, 4000)
         lines.append("fault %d %d %d %d" % (kind, j, arg, rng.choice([0, 0, 1, 3, 7, 20, 50])))
+    # the lapping view at every packet of a stretch (block-size switches are where its buffer handling differs)
+    j0 = rng.randint(0, 30)
+    for j in range(j0, j0 + (25 if tier == "quick" else 80)):
+        lines.append("fault 7 %d 0 %d" % (j, rng.choice([0, 0, 3])))
     return lines
 
 
